@@ -26,6 +26,10 @@ pub enum Host {
     /// style 1 asks size_hint() around every next(), 2 `.map(body).collect()`, 3 `for_each`,
     /// 4 `try_for_each`, 5 `step_by(2)`, 6 `skip(1)`, 7 `next` then `fold`, 8 `nth(0)` then `last`
     Adapted { u: usize, dir: u8, style: u8 },
+    /// `to_dot_with_attr` of a container of all nodes: the edge-attribute callback runs inside
+    /// the library's loop over each member's edges, the node-attribute callback inside its loop
+    /// over the members; the script fires from both
+    Dot,
 }
 
 /// operand: an absolute node, or an endpoint of the edge under the cursor
@@ -51,6 +55,8 @@ pub enum InjOp {
     GReinsert { u: T },
     GGet { u: T },
     GToVec,
+    /// another read-only container call: 0 roots, 1 leaves, 2 orphans, 4 to_dot, 5 scc, 6 serialise, 8 iter
+    GView { kind: u8 },
 }
 
 #[derive(Clone, Debug, Serialize, Deserialize)]
@@ -279,6 +285,18 @@ impl<'a, F: Flavour> Ctx<'a, F> {
                     }
                     return;
                 }
+                InjOp::GView { kind } => {
+                    if self.graph.is_some() {
+                        // (run on the harness's own container of the same nodes)
+                        let w = World::<F> { nodes: Vec::new(), graph: self.graph.take() };
+                        let r = caught(|| w.exec_raw(&Op::GView { kind: *kind }));
+                        self.graph = w.graph;
+                        if let Caught::Panic(m) | Caught::Abort(m) = r {
+                            self.violation = Some(Violation::new("panic-injected:container", format!("container view {kind} inside {:?}: {m}", self.sc.host)));
+                        }
+                    }
+                    return;
+                }
                 InjOp::GToVec => {
                     if let Some(g) = self.graph.as_ref() {
                         let got: BTreeSet<usize> = match caught(|| F::g_to_vec(g).iter().map(|n| F::key(n)).collect()) {
@@ -500,6 +518,34 @@ fn run_host<F: Flavour>(sc: &InjSc, with_script: bool, stats: &mut Stats) -> (Op
         Host::IterInto { u } => F::for_into(&world.nodes[*u], &mut |a, b, e| {
             ctx.borrow_mut().on_yield(F::key(&a), F::key(&b), e.0, Some((0, *u)))
         }),
+        Host::Dot => {
+            if let Some(g) = world.graph.as_ref() {
+                let _ = F::g_to_dot_cb(
+                    g,
+                    &|n| {
+                        keep(n);
+                        // a node statement: no edge under the cursor; the script may still fire
+                        let k = F::key(n);
+                        let mut c = ctx.borrow_mut();
+                        c.stats.inc("steps");
+                        c.fire((k, k));
+                        c.step += 1;
+                        if c.violation.is_some() {
+                            drop(c);
+                            std::panic::resume_unwind(Box::new(SimAbort("cut".into())));
+                        }
+                    },
+                    &|a, b, e| {
+                        keep(a);
+                        keep(b);
+                        let go = ctx.borrow_mut().on_yield(F::key(a), F::key(b), e.0, None);
+                        if !go {
+                            std::panic::resume_unwind(Box::new(SimAbort("cut".into())));
+                        }
+                    },
+                );
+            }
+        }
         Host::Adapted { u, dir, style } => {
             let pos = if F::DIRECTED && *dir == 1 { 1 } else { 0 };
             F::for_adapted(&world.nodes[*u], *dir, *style, &mut |a, b, e| {
@@ -691,7 +737,13 @@ impl Engine for Inject {
             4..=5 => Host::Adapted { u: hu, dir: rng.below(3) as u8, style: rng.range(1, 8) as u8 },
             _ => Host::Search { root: hu, spec: gen_host_spec(rng, directed, n) },
         };
-        let in_graph = rng.chance(1, 3);
+        let mut in_graph = rng.chance(1, 3);
+        let host = if rng.chance(1, 25) && !flavour.starts_with("sync_un") {
+            in_graph = true;
+            Host::Dot
+        } else {
+            host
+        };
         let max_script = if tier == Tier::Quick { 12 } else { 20 };
         let ns = rng.below(max_script + 1);
         let provs = [Prov::Own, Prov::Own, Prov::Clone, Prov::Get, Prov::Index, Prov::EdgeSrc, Prov::EdgeDst, Prov::Search, Prov::PathNode];
@@ -732,7 +784,8 @@ impl Engine for Inject {
                 92..=93 => InjOp::GInsertNew { key: 500 + rng.below(3) },
                 94..=95 => InjOp::GRemove { u: gen_t(rng, n) },
                 96 => InjOp::GReinsert { u: gen_t(rng, n) },
-                97..=98 => InjOp::GGet { u: gen_t(rng, n) },
+                97 => InjOp::GGet { u: gen_t(rng, n) },
+                98 => InjOp::GView { kind: *rng.pick(&[0u8, 1, 2, 4, 5, 6, 8]) },
                 _ => InjOp::GToVec,
             };
             script.push(op);
@@ -755,6 +808,7 @@ impl Engine for Inject {
                 }
             }
             Host::Search { .. } => m.edges.len().min(8),
+            Host::Dot => (m.edges.len() + n).min(10),
         };
         let horizon = if rng.chance(1, 5) { rng.range(1, 10) } else { rng.range(1, est.max(1)) };
         let mut fire = vec![0u8; horizon];
@@ -814,6 +868,7 @@ impl Engine for Inject {
             Host::IterOut { .. } => "host_iter_out".to_string(),
             Host::IterIn { .. } => "host_iter_in".to_string(),
             Host::IterInto { .. } => "host_into_iter".to_string(),
+            Host::Dot => "host_to_dot_with_attr_callbacks".to_string(),
             Host::Adapted { dir, style, .. } => format!(
                 "host_adapted_dir{dir}_{}",
                 ["", "size_hint", "map_collect", "for_each", "try_for_each", "step_by", "skip", "fold", "nth_last"][(*style as usize).min(8)]
@@ -878,6 +933,7 @@ impl Engine for Inject {
             let host_uses = match &sc.host {
                 Host::IterOut { u } | Host::IterIn { u } | Host::IterInto { u } | Host::Adapted { u, .. } => *u == k,
                 Host::Search { root, spec } => *root == k || spec.target == Some(k),
+                Host::Dot => false,
             };
             let script_uses = sc.script.iter().any(|o| match o {
                 InjOp::Connect { u, v, .. } | InjOp::TryConnect { u, v, .. } => uses(u) || uses(v),
